@@ -17,6 +17,8 @@ func init() {
 		Quick:      all("./proto", "./internal/impl", "./encoding/protojson", "./encoding/prototext", "./types/dynamicpb"),
 		Thorough:   allAndLegacy("./proto", "./internal/impl", "./encoding/protojson", "./encoding/prototext", "./types/dynamicpb"),
 		Run: func(c *Ctx) {
+			c.ruleValidateMapKeyVal("R-VALIDATE-MAP-KEYVAL")
+			c.ruleUTF8StringOnly("R-UTF8-STRING-ONLY", []string{"encoding/prototext", "encoding/protojson", "proto"}, 3)
 			c.ruleErrDeadStore("R-ERR-DEAD-STORE", codecPkgs, nil, 100)
 			c.ruleCoderRow("R-CODER-ROW", 100)
 			c.ruleCoderSelect("R-CODER-SELECT", 60)
